@@ -144,6 +144,11 @@ class World:
             return v[1] / 2.0
         if t == 'e':
             return self.enums[v[1]].eLiterals[v[2]]
+        if t == 'k':          # a classifier object offered as a VALUE
+            if v[1] < 0:
+                return self.E.EString
+            c = list(self.classes.values())[v[1]] if isinstance(self.classes, dict) else self.classes[v[1]]
+            return getattr(c, 'eClass', c) if not isinstance(c, self.E.EClass) else c
         raise AssertionError(v)
 
     def tok(self, x):
